@@ -34,13 +34,34 @@ type routerInfo struct {
 	static string // non-empty: not driven dynamically, reason
 }
 
+// heightFor: variants 0 and 1 are two ordinary heights, 2 is height 0 (a side chain rooted at its block 0), 3 is an
+// extreme height.
+func heightFor(v int, a, b, extreme int64) int64 {
+	switch v {
+	case 0:
+		return a
+	case 1:
+		return b
+	case 2:
+		return 0
+	}
+	return extreme
+}
+
+// unusual: variant 3 also carries unusual-but-decodable content (long chain ids, odd hash lengths, empty sets).
+func unusual(v int) bool { return v == 3 }
+
 func h32(tag string, v int) [32]byte { return sha256.Sum256([]byte(fmt.Sprintf("%s-%d", tag, v))) }
 
 func ethHeaderJSON(v int, extra []byte) ([]byte, error) {
+	return ethHeaderJSONAt(v, extra, heightFor(v, 1000, 1200, 1<<62))
+}
+
+func ethHeaderJSONAt(v int, extra []byte, number int64) ([]byte, error) {
 	h := eth.Header{
 		ParentHash: ecommon.Hash(h32("parent", v)), UncleHash: etypes.EmptyUncleHash, Coinbase: ecommon.Address{1, byte(v)},
 		Root: ecommon.Hash(h32("root", v)), TxHash: etypes.EmptyRootHash, ReceiptHash: etypes.EmptyRootHash,
-		Difficulty: big.NewInt(int64(2 + v)), Number: big.NewInt(int64(1000 + 200*v)), GasLimit: 8000000, GasUsed: 21000,
+		Difficulty: big.NewInt(int64(2 + v)), Number: big.NewInt(number), GasLimit: 8000000, GasUsed: 21000,
 		Time: uint64(1600000000 + v), Extra: extra, MixDigest: ecommon.Hash{}, Nonce: etypes.BlockNonce{},
 	}
 	return json.Marshal(h)
@@ -49,7 +70,11 @@ func ethHeaderJSON(v int, extra []byte) ([]byte, error) {
 // parlia/congress style genesis of the bsc, heco, msc, hsc, pixiechain and bytom routers
 func posaGenesis(v int) ([]byte, error) {
 	extra := make([]byte, 32)
-	for i := 0; i < 3+v; i++ {
+	nSigners := 3 + v
+	if unusual(v) {
+		nSigners = 1
+	}
+	for i := 0; i < nSigners; i++ {
 		a := h32("signer", 10*v+i)
 		extra = append(extra, a[:20]...)
 	}
@@ -62,7 +87,7 @@ func posaGenesis(v int) ([]byte, error) {
 	g := map[string]interface{}{
 		"Header": json.RawMessage(hdr),
 		"PrevValidators": []map[string]interface{}{{
-			"Height":     big.NewInt(int64(800 + 200*v)),
+			"Height":     big.NewInt(heightFor(v, 1000, 1200, 1<<62) - 200),
 			"Validators": []ecommon.Address{ecommon.BytesToAddress(prev[:20])},
 			"Hash":       nil,
 		}},
@@ -80,7 +105,7 @@ func btcGenesis(v int) ([]byte, error) {
 		return nil, err
 	}
 	var ht [4]byte
-	binary.BigEndian.PutUint32(ht[:], uint32(2016*(10+v)))
+	binary.BigEndian.PutUint32(ht[:], uint32(heightFor(v, 20160, 22176, 0xffffffff)))
 	return append(buf.Bytes(), ht[:]...), nil
 }
 
@@ -90,7 +115,11 @@ func ontGenesis(v int) ([]byte, error) {
 		ID    string `json:"id"`
 	}
 	var peers []peer
-	for i := 0; i < 4+v; i++ {
+	nPeers := 4 + v
+	if unusual(v) {
+		nPeers = 1
+	}
+	for i := 0; i < nPeers; i++ {
 		peers = append(peers, peer{Index: uint32(i + 1), ID: valHex[(i+5*v)%nKeys]})
 	}
 	payload := map[string]interface{}{
@@ -104,7 +133,7 @@ func ontGenesis(v int) ([]byte, error) {
 		return nil, err
 	}
 	hd := &otypes.Header{Version: 0, PrevBlockHash: ocommon.Uint256(h32("ontprev", v)), TransactionsRoot: ocommon.Uint256(h32("onttx", v)),
-		BlockRoot: ocommon.Uint256(h32("ontblk", v)), Timestamp: uint32(1600000000 + v), Height: uint32(100 * v), ConsensusData: uint64(v),
+		BlockRoot: ocommon.Uint256(h32("ontblk", v)), Timestamp: uint32(1600000000 + v), Height: uint32(heightFor(v, 0, 100, 0xffffffff)), ConsensusData: uint64(v),
 		ConsensusPayload: pb, NextBookkeeper: ocommon.Address{}}
 	sink := ocommon.NewZeroCopySink(nil)
 	hd.Serialization(sink)
@@ -113,7 +142,11 @@ func ontGenesis(v int) ([]byte, error) {
 
 func quorumGenesis(v int) ([]byte, error) {
 	var vals []ecommon.Address
-	for i := 0; i < 4+v; i++ {
+	nVals := 4 + v
+	if unusual(v) {
+		nVals = 0
+	}
+	for i := 0; i < nVals; i++ {
 		a := h32("qval", 10*v+i)
 		vals = append(vals, ecommon.BytesToAddress(a[:20]))
 	}
@@ -123,21 +156,27 @@ func quorumGenesis(v int) ([]byte, error) {
 		return nil, err
 	}
 	h := &etypes.Header{ParentHash: ecommon.Hash(h32("qparent", v)), UncleHash: etypes.EmptyUncleHash, Root: ecommon.Hash(h32("qroot", v)),
-		TxHash: etypes.EmptyRootHash, ReceiptHash: etypes.EmptyRootHash, Difficulty: big.NewInt(1), Number: big.NewInt(int64(50 + 10*v)),
+		TxHash: etypes.EmptyRootHash, ReceiptHash: etypes.EmptyRootHash, Difficulty: big.NewInt(1), Number: big.NewInt(heightFor(v, 50, 60, 1<<62)),
 		GasLimit: 1, Time: uint64(1600000000 + v), Extra: append(make([]byte, 32), payload...), MixDigest: quorum.IstanbulDigest}
 	return json.Marshal(h)
 }
 
 func cosmosGenesis(v int) ([]byte, error) {
 	hv := h32("cosmosvals", v)
+	chainID, nvh := "polyverif-cosmos", hv[:]
+	if unusual(v) {
+		chainID, nvh = tmChainIDLong, hv[:5]
+	}
 	hd := cosmos.CosmosHeader{
-		Header: tmtypes.Header{ChainID: "polyverif-cosmos", Height: int64(100 + 50*v), Time: time.Unix(int64(1600000000+v), 0).UTC(),
-			NextValidatorsHash: hv[:], ValidatorsHash: hv[:]},
+		Header: tmtypes.Header{ChainID: chainID, Height: heightFor(v, 100, 150, 1<<62), Time: time.Unix(int64(1600000000+v), 0).UTC(),
+			NextValidatorsHash: nvh, ValidatorsHash: hv[:]},
 		Commit:  &tmtypes.Commit{},
 		Valsets: []*tmtypes.Validator{},
 	}
 	return cosmos.Cdc.MarshalBinaryBare(hd)
 }
+
+const tmChainIDLong = "polyverif-a-chain-id-that-is-longer-than-fifty-characters-0123456789"
 
 func badGenesis() []byte { return []byte{0xde, 0xad, 0xbe, 0xef, 0x01} }
 
